@@ -47,6 +47,15 @@ def programs(ctx):
             fut2 = {'part': part, 'head': ('norm', 'c', 1), 'body': [('p', ('patom', 'b', 0))]}
             for order in ([neg, ch, fut], [fut, ch, neg], [ch, neg, fut], [nfut, ch, fut2], [fut2, ch, nfut], [neg, nfut, ch, fut2]):
                 progs.append(('sign-order', order))
+    # fixed family: MORE look-ahead constraints of one depth in one part than that depth (every one of them has its temporary and its permanent copy)
+    for part in ('initial', 'always', 'dynamic'):
+        for d in (1, 2):
+            for extra in (1, 2):
+                c = [{'part': 'always', 'head': ('choice', ['a', 'b', 'c']), 'body': []}]
+                for j in range(d + extra):
+                    x, y = 'abc'[j % 3], 'abc'[(j + 1) % 3]
+                    c.append({'part': part, 'head': ('cons',), 'body': [('p', ('patom', x, 0)), ('pn'[j % 2], ('fatom', y, d))]})
+                progs.append(('many-of-one-depth', c))
     return progs
 
 
